@@ -29,7 +29,7 @@ META = {
             "(read back with query_prefix and decoded independently) must equal the spec's after every step.",
     "note": "Bounds: quick — invariants on all stores <= 4 facts of 9 schema shapes; cover = all stores <= 3 facts x "
             "all one-step operations of 9 typed schemas (~20k behaviours, all replayed); 300 simulated histories of "
-            "8 steps over 345 schemas. Thorough — all shapes, 14 schemas with <= 4 facts, 4000 histories. Key/value "
+            "8 steps over 345 schemas. Thorough — invariants on 13 shapes, cover of the 9 schemas with <= 4 facts and of 4 more with <= 3 (~70k behaviours), 4000 histories. Key/value "
             "domains are 2-3 ranks per field, concretised per behaviour from ascending tables (i64 extremes, "
             "prefix-related strings, multi-byte UTF-8, ids differing in first/last byte). Trusted: the harness' "
             "decoder of stored keys/values, TestFfiEnvelope seal/open, the in-memory linear-storage I/O manager.",
@@ -117,15 +117,22 @@ def run(ctx):
         return
     thorough = ctx.thorough
     # 1. model-level invariants on every store of every schema shape
-    sub = {"Schemas <- ShapesQuick": "Schemas <- ShapesAll"} if thorough else None
+    sub = {"Schemas <- ShapesQuick": "Schemas <- ShapesThorough"} if thorough else None
     r = ctx.tlc("MC_PolicyFacts", "MC_PolicyFacts.cfg", timeout=3000, cache=True, subst=sub,
                 tag="MC_PolicyFacts_inv")
     inv_states = r.states
     # 2. cover: every store x every one-step operation, emitted
-    sub = {"Schemas <- SchemasQuick": "Schemas <- SchemasThorough", "MaxFacts = 3": "MaxFacts = 4"} if thorough else None
-    r = ctx.tlc("MC_PolicyFacts", "MC_PolicyFacts_cover.cfg", timeout=3000, cache=True, subst=sub,
-                tag="MC_PolicyFacts_cover")
-    cover = r.replays
+    if thorough:
+        r = ctx.tlc("MC_PolicyFacts", "MC_PolicyFacts_cover.cfg", timeout=3000, cache=True,
+                    subst={"MaxFacts = 3": "MaxFacts = 4"}, tag="MC_PolicyFacts_cover4")
+        cover = r.replays
+        r = ctx.tlc("MC_PolicyFacts", "MC_PolicyFacts_cover.cfg", timeout=3000, cache=True,
+                    subst={"Schemas <- SchemasQuick": "Schemas <- SchemasExtra"}, tag="MC_PolicyFacts_coverX")
+        cover = cover + r.replays
+    else:
+        r = ctx.tlc("MC_PolicyFacts", "MC_PolicyFacts_cover.cfg", timeout=3000, cache=True,
+                    tag="MC_PolicyFacts_cover")
+        cover = r.replays
     if not cover:
         raise verif.ToolError("TLC emitted no behaviours (cover)")
     hist = op_histogram(cover)
@@ -168,9 +175,9 @@ def run(ctx):
     ctx.cov.update({
         "exhaustive": True,
         "constants": {"ValDom": 2, "Limits": [1, 2, 3],
-                      "invariant_run": "all stores <= 4 facts of %s" % ("all shapes" if thorough else "the 9 quick shapes"),
-                      "cover_run": "%s, MaxFacts=%d, one step from every store" % (
-                          "SchemasThorough" if thorough else "SchemasQuick", 4 if thorough else 3),
+                      "invariant_run": "all stores <= 4 facts of %s" % ("the 13 thorough shapes" if thorough else "the 9 quick shapes"),
+                      "cover_run": ("SchemasQuick with MaxFacts=4 and SchemasExtra with MaxFacts=3" if thorough
+                                    else "SchemasQuick, MaxFacts=3") + ", one step from every store",
                       "simulation": "%d histories x 8 steps, SchemasAll (345 schemas), MaxFacts=4" % nsim},
         "invariant_states": inv_states,
         "behaviours_replayed": len(cover) + len(sim),
